@@ -12,3 +12,6 @@ import KdVerif.Props.C17
 import KdVerif.Props.C16
 import KdVerif.Props.C11
 import KdVerif.Props.C18
+import KdVerif.Props.C02
+import KdVerif.Props.C03
+import KdVerif.Props.C06
